@@ -63,6 +63,13 @@ func frontCorpus(r *core.Run, avoid map[string]bool) []feCase {
 	var named []schema.Named
 	named = append(named, schema.OrderFamily()...)
 	named = append(named, schema.ConstructFamily()...)
+	// identifiers outside ASCII (front end only: the generated Go is C12's naming-hazard finding)
+	named = append(named, schema.Named{Name: "construct/non-ascii-identifiers", S: &schema.Schema{Defs: []*schema.Def{
+		{Kind: "enum", Name: "Farbe", Options: []schema.Option{{Name: "Grün", Lit: "1"}, {Name: "Weiß", Lit: "2"}}},
+		{Kind: "struct", Name: "Größe", Fields: []schema.Field{{Name: "höhe", Type: schema.Simple("int32")}, {Name: "straße", Type: schema.Simple("string")}, {Name: "f", Type: schema.Simple("Farbe")}}},
+		{Kind: "message", Name: "Überschrift", Fields: []schema.Field{{Name: "größe", Type: schema.Simple("Größe"), Index: 1}, {Name: "名前", Type: schema.ArrayOf(schema.Simple("string")), Index: 2}}},
+		{Kind: "union", Name: "Vereinigung", Branches: []schema.Branch{{Index: 1, Def: &schema.Def{Kind: "struct", Name: "Fläche", Fields: []schema.Field{{Name: "q", Type: schema.Simple("float64")}}}}}},
+	}}})
 	nrand := 500
 	if r.Thorough() {
 		nrand = 5000
@@ -257,9 +264,16 @@ func runFmt(prop string, args []string) {
 				if fileDefs(x[i].File) == 0 {
 					continue
 				}
-			} else if !ok || schema.Diff(want, *x[i].File, schema.DiffOpts{IgnoreFileName: true, IgnoreComments: true}) != "" {
-				r.Hist("skipped: ReadFile(x) does not match the model (C11's business)")
+			} else if !ok {
 				continue
+			} else if schema.Diff(want, *x[i].File, schema.DiffOpts{IgnoreFileName: true, IgnoreComments: true}) != "" {
+				// ReadFile(x) itself is off (C11 reports that); the property still compares what
+				// ReadFile makes of x with what it makes of Format(x), so the case stays in as long
+				// as the File is not empty
+				r.Hist("ReadFile(x) does not match the model (C11's business); compared with File(Format(x)) all the same")
+				if fileDefs(x[i].File) == 0 {
+					continue
+				}
 			}
 			key := ""
 			if len(c.s.Defs) > 0 {
@@ -269,7 +283,7 @@ func runFmt(prop string, args []string) {
 			loc := map[string]string{"layout": c.layout.Name}
 			if c.place != nil {
 				loc["at"], loc["form"] = c.place.At, c.place.Form
-			r.Hist("accepted comment placement: " + c.place.Form + " " + c.place.At)
+				r.Hist("accepted comment placement: " + c.place.Form + " " + c.place.At)
 			}
 			for _, ft := range []string{"enum.typed", "enum.flags", "import", "type.suffix_array_2d", "type.array_2d"} {
 				if c.feat[ft] {
